@@ -8,7 +8,7 @@
    the BCL walker's reflection mechanics are explored by the correspondence streams, not modelled. *)
 From Coq Require Import String List NArith ZArith Bool Arith.
 From J5V.lib Require Import Text Outcome.
-From J5V.gen Require SetExtGen PanicGen WalkerGen.
+From J5V.gen Require SetExtGen PanicGen WalkerGen SourcewalkGen.
 From J5V.model Require Import Entity.
 From J5V.model Require Import BclLexer BclParser CmpbFields CmpbDecls CmpbFront CmpbWalker CmpbPackage CmpbEntity.
 From J5V.proofs Require Import BclPosProofs BclBytesProofs CmpbFieldsProofs CmpbPanicProofs CmpbDeclsProofs CmpbSchemaProofs CmpbFrontProofs CmpbPackageProofs CmpbEntityProofs.
@@ -244,6 +244,12 @@ Print Assumptions C07_error_list_is_error_count.
 Theorem C07_one_error_per_failing_property : forall lp, length (prop_errors lp) <= 1.
 Proof. exact prop_errors_at_most_one. Qed.
 Print Assumptions C07_one_error_per_failing_property.
+
+(* the child(...) calls of sourcewalk the SourceNode paths were read from are still there, with their multiplicities
+   (a tripwire for the path data the CConvPos correspondence is fed, not a theorem about sourcewalk) *)
+Theorem C07_sourcewalk_paths_agree : sourcewalk_paths_agree = true.
+Proof. exact sourcewalk_paths_agree_holds. Qed.
+Print Assumptions C07_sourcewalk_paths_agree.
 
 (* ---- the unmodelled walker: census only (no theorem about it).  Every syntactic run-time panic source in
    internal/bcl/parse.go and internal/bcl/internal/walker (gen/WalkerGen.v) has a review note and vice versa;
